@@ -61,7 +61,8 @@ def pair_cases(draw):
         if 2e-11 < diff < 5e-10:   # too close to the threshold to have a defined answer: leave the coordinate alone
             v = a[i]
         b[i] = v
-    return {"a": a, "b": b, "mode": mode}
+    # a design read back from a data store keeps its stored id, which can coincide with the id of a new design
+    return {"a": a, "b": b, "mode": mode, "same_id": draw(st.integers(0, 3)) == 0}
 
 
 def expected_equal(a, b):
@@ -78,6 +79,8 @@ def check_pair(case):
     exp = expected_equal(a, b)
     with guard("eq"):
         ia, ib = Individual(list(a)), Individual(list(b))
+        if case.get("same_id"):
+            ib.id = ia.id            # what Individual.from_dict does with a stored id
         r1 = (ia == ib)
         r2 = (ib == ia)
     if bool(r1) != exp:
@@ -113,12 +116,12 @@ def pool_cases(draw):
             v = draw(st.lists(coord, min_size=n, max_size=n))
         elif kind == "first":
             v = src
-            v[0] = v[0] + draw(st.sampled_from([1.0, -1.0, 0.25, 1e-6, 7.0]))
+            v[0] = v[0] + draw(st.sampled_from([1.0, -1.0, 0.25, 1e-6, 7.0, 3e-9, 2e-8]))
         elif kind == "notlast":
             v = src
             if n > 1:
                 i = draw(st.integers(0, n - 2))
-                v[i] = v[i] + draw(st.sampled_from([1.0, -1.0, 0.25, 1e-6, 7.0]))
+                v[i] = v[i] + draw(st.sampled_from([1.0, -1.0, 0.25, 1e-6, 7.0, 3e-9, 2e-8]))
             else:
                 v[0] = v[0] + 1.0
         else:  # hash(-1.0) == hash(-2.0) in CPython
